@@ -1,3 +1,6 @@
 import Lcapy.Driver.Loop
 import Lcapy.Driver.C01
-def main : IO Unit := Lcapy.Driver.runDriver [Lcapy.Driver.C01.handle]
+import Lcapy.Driver.C03
+import Lcapy.Driver.C04
+import Lcapy.Driver.C08
+def main : IO Unit := Lcapy.Driver.runDriver [Lcapy.Driver.C04.handle, Lcapy.Driver.C01.handle, Lcapy.Driver.C03.handle, Lcapy.Driver.C08.handle]
